@@ -617,6 +617,25 @@ class ExtMixin(object):
             return Const(is_strlike(v))
         if isinstance(c, ExtV) and c.name in ("collections.abc.Callable", "collections.Callable", "typing.Callable"):
             return self.x_callable([v], {}, node, env)       # the ABC's subclass hook is 'has __call__'
+        if isinstance(c, ExtV):
+            # a value of a built-in type against a library class / ABC: decided by the library class itself
+            samples = None
+            if isinstance(v, Const) and isinstance(v.v, (str, bytes, bool, type(None))):
+                samples = [v.v]
+            elif is_strlike(v):
+                samples = [""]
+            elif isinstance(v, Num):
+                samples = [0, 0.0]
+            elif isinstance(v, ListV) and v.kind in ("list", "tuple", "set"):
+                samples = [{"list": [], "tuple": (), "set": set()}[v.kind]]
+            elif isinstance(v, DictV):
+                samples = [{}]
+            if samples is not None:
+                cls_ = self.ext_object(c, node)
+                if isinstance(cls_, type):
+                    res = set(isinstance(x, cls_) for x in samples)
+                    if len(res) == 1:
+                        return Const(res.pop())
         self.err(node, "isinstance(%r, %r)" % (v, c))
 
     def ext_object(self, v, node):
@@ -828,6 +847,13 @@ class ExtMixin(object):
         if kwargs or not args or not all(isinstance(a, Const) and isinstance(a.v, str) for a in args):
             self.err(node, "os.path.join of non-literal parts")
         return Const(posixpath.join(*[a.v for a in args]))
+
+    def x_os_fspath(self, args, kwargs, node, env):
+        if kwargs or len(args) != 1:
+            self.err(node, "os.fspath arguments")
+        if is_strlike(args[0]) or isinstance(args[0], Opaque):
+            return args[0]          # str / bytes are returned unchanged; a path object stands for its own text
+        raise RaiseSignal(ExcV(ExtV("builtins.TypeError"), [Const("expected str, bytes or os.PathLike object")]), node)
 
     def x_io_StringIO(self, args, kwargs, node, env):
         return BufV("StringIO#%d" % next(self.fresh))
